@@ -336,7 +336,7 @@ def action_sites(F, f, action):
         for bi, si, pl, rv, ln in f.stmts():
             if len(pl) == 1 and pl[0] == 0:
                 rc = core._ret_class_rv(rv, f)
-                if rc.split(':')[0] == want:
+                if rc == want or (':' not in want and rc.split(':')[0] == want):
                     out.append(bi)
         return sorted(set(out))
     if action == 'err':
@@ -363,6 +363,8 @@ def _terms_included(want, got):
     or one side has none (an outcome the analysis could not name claims nothing) or they are of different kinds"""
     rest = list(got)
     pending = []
+    # a term that names nothing but anonymous locals (`var:bool`) cannot be recognised again after any rewrite: it claims nothing
+    want = [w for w in want if not all(a.startswith(('var', 'upvar:var')) for a in w.split('@')[0].split('&'))]
     for w in want:
         if w in rest:
             rest.remove(w)
